@@ -578,7 +578,8 @@ def warping_paths_affinity(s1, s2, window=None, only_triu=False,
     """
     if use_c:
         return warping_paths_affinity_fast(s1, s2, window=window, only_triu=only_triu,
-                                           penalty=penalty, tau=tau, delta=delta, delta_factor=delta_factor)
+                                           penalty=penalty, psi=psi, psi_neg=psi_neg,
+                                           gamma=gamma, tau=tau, delta=delta, delta_factor=delta_factor)
     if np is None:
         raise NumpyException("Numpy is required for the warping_paths method")
     s = DTWSettings.for_dtw(s1, s2, window=window, psi=psi, penalty=penalty, use_c=use_c)
